@@ -9,6 +9,7 @@ call form and is replayed with Signature.bind on the live objects.
 from __future__ import annotations
 
 import inspect
+import re
 import sys
 import time
 
@@ -446,7 +447,12 @@ def main(tier):
             cfm = r.get("callform") or {}
             w = r.get("witness") or {}
             cls = "call_rejected" if r.get("kind") == "call_rejected" else "ignored_or_misbound"
-            violations.append({"key": f"{cfm.get('target')}|{cls}:{cfm.get('param')}|{cfm.get('form')}", "what": f"{cfm.get('target')}({cfm.get('param')}={cfm.get('value')} passed {cfm.get('form')}): {w.get('why') or 'exported model differs from JAX'}: inputs={str(w.get('inputs'))[:80]} jax={str(w.get('jax'))[:70]} ort={str(w.get('ort', w.get('ort_error')))[:70]}", "payload": {"job": r["job"], "witness": w}})
+            key = f"{cfm.get('target')}|{cls}:{cfm.get('param')}|{cfm.get('form')}"
+            m = re.search(r"unexpected keyword argument '(\w+)'", str(w.get("why")))
+            if cls == "call_rejected" and m:
+                # the same call-site defect part 1 reports from the signatures (one key per parameter)
+                key = f"{cfm.get('target')}|param:{m.group(1)}"
+            violations.append({"key": key, "what": f"{cfm.get('target')}({cfm.get('param')}={cfm.get('value')} passed {cfm.get('form')}): {w.get('why') or 'exported model differs from JAX'}: inputs={str(w.get('inputs'))[:80]} jax={str(w.get('jax'))[:70]} ort={str(w.get('ort', w.get('ort_error')))[:70]}", "payload": {"job": r["job"], "witness": w}})
     if not samples:
         samples.append({"note": "no sat query"})
     cov = {
